@@ -12,8 +12,11 @@ for pid in ids:
     try:
         spec = importlib.util.spec_from_file_location("p", p)
         m = importlib.util.module_from_spec(spec); spec.loader.exec_module(m)
-        for a in ("LEVEL_TEXT", "LEVEL_NOTE", "TECHNIQUE", "GO_PKG", "HARNESS", "GO_TEST"):
+        for a in ("LEVEL_TEXT", "LEVEL_NOTE", "TECHNIQUE"):
             getattr(m, a)
+        if not getattr(m, "GO_RUNS", None):     # one harness (GO_PKG/HARNESS/GO_TEST) or several (GO_RUNS)
+            for a in ("GO_PKG", "HARNESS", "GO_TEST"):
+                getattr(m, a)
         if not (os.path.exists(os.path.join(ROOT, "coq", "Props", pid + ".v")) and os.path.exists(os.path.join(ROOT, "evidence", pid + ".json"))):
             raise RuntimeError("incomplete")
     except Exception as ex:
